@@ -24,7 +24,7 @@ PROPERTY = "C20"
 LEVEL = "model_checking"
 
 PY = "/venv/bin/python"
-PRODUCERS = ["input", "add1", "chain", "reduction"]
+PRODUCERS = ["input", "add1", "chain", "reduction", "rechunked"]
 USES = ["alone", "local-d", "d-local", "d-d-same", "d1-d2-two", "d-original"]
 
 PRODUCER_SRC = r'''
@@ -40,6 +40,9 @@ elif prog == "chain":
     y = xp.negative(xp.add(xp.negative(x), 3.0))
 elif prog == "reduction":
     y = xp.subtract(x, xp.sum(x))
+elif prog == "rechunked":
+    # the rechunk is not fused, so its input is a materialised intermediate read back by name
+    y = xp.negative(xp.add(x, 1.0).rechunk((8,)))
 open(out, "wb").write(cloudpickle.dumps(y))
 '''
 
@@ -47,14 +50,21 @@ RECEIVER_SRC = r'''
 import sys, json, numpy as np, cloudpickle, cubed, cubed.array_api as xp
 from cubed.runtime.create import create_executor
 work, p1, p2, k, use, opt = sys.argv[1], sys.argv[2], sys.argv[3], int(sys.argv[4]), sys.argv[5], sys.argv[6] == "1"
+precompute = len(sys.argv) > 7 and sys.argv[7] == "1"
 spec = cubed.Spec(work_dir=work, allowed_mem=200000)
+if precompute:
+    # the receiver has already run a computation of its own before deserializing anything: same construction order as the
+    # 'rechunked' producer (so that with k = 0 its materialised intermediate carries the same gensym name), default executor
+    a0 = xp.asarray(np.arange(8.0) + 7.0, chunks=4, spec=spec)
+    wloc = xp.negative(xp.add(a0, 5.0).rechunk((8,)))
+    assert np.array_equal(wloc.compute(), -(np.arange(8.0) + 12.0))
 pre = []
 for j in range(k):
     pre.append(xp.negative(xp.asarray(np.zeros(2) + j, spec=spec)))
 a = xp.asarray(np.arange(8.0), chunks=4, spec=spec)
 b = xp.negative(a)
-d = cloudpickle.loads(open(p1, "rb").read())
 ex = create_executor("single-threaded")
+d = cloudpickle.loads(open(p1, "rb").read())
 names_local = sorted(set(b._plan.dag.nodes))
 names_d = sorted(set(d._plan.dag.nodes))
 try:
@@ -92,6 +102,8 @@ def producer_value(prog, base):
         return -((-x) + 3.0)
     if prog == "reduction":
         return x - x.sum()
+    if prog == "rechunked":
+        return -(x + 1)
 
 
 def expected(use, v1, v2):
@@ -121,13 +133,14 @@ def _produce_item(item):
 
 
 def scenario(item):
-    prog, k, use, opt, seed, work = item
+    prog, k, use, opt, seed, work = item[:6]
+    pre = bool(item[6]) if len(item) > 6 else False
     own = work is None
     if own:
         work = tempfile.mkdtemp(prefix="vkit-c20-")
     try:
         b1, b2 = 1000.0 + seed, 5000.0 + seed
-        case = dict(producer=prog, k=k, use=use, optimize=opt, seed=seed)
+        case = dict(producer=prog, k=k, use=use, optimize=opt, seed=seed, receiver_precomputed=pre)
         if use == "d-original" or k == "same-process":
             return case, same_process(prog, use, opt, work, b1)
         p1 = produce(work, prog, b1)
@@ -137,7 +150,7 @@ def scenario(item):
             other = PRODUCERS[(PRODUCERS.index(prog) + 1) % len(PRODUCERS)]
             p2 = produce(work, other, b2)
             v2 = producer_value(other, b2)
-        r = run_py(RECEIVER_SRC, [work, p1, p2, k, use, "1" if opt else "0"])
+        r = run_py(RECEIVER_SRC, [work, p1, p2, k, use, "1" if opt else "0", "1" if pre else "0"])
         if r.returncode != 0 or not r.stdout.strip():
             raise HarnessError(f"receiver failed: {r.stderr[-400:]}")
         out = json.loads(r.stdout.strip().splitlines()[-1])
@@ -166,7 +179,7 @@ def same_process(prog, use, opt, work, base):
     spec = cubed.Spec(work_dir=work, allowed_mem=200000)
     x = xp.asarray(np.arange(8.0) + base, chunks=4, spec=spec)
     y = {"input": lambda: x, "add1": lambda: xp.add(x, 1.0), "chain": lambda: xp.negative(xp.add(xp.negative(x), 3.0)),
-         "reduction": lambda: xp.subtract(x, xp.sum(x))}[prog]()
+         "reduction": lambda: xp.subtract(x, xp.sum(x)), "rechunked": lambda: xp.negative(xp.add(x, 1.0).rechunk((8,)))}[prog]()
     v = producer_value(prog, base)
     d = cloudpickle.loads(cloudpickle.dumps(y))
     ex = create_executor("single-threaded")
@@ -194,7 +207,7 @@ def same_process(prog, use, opt, work, base):
 
 
 def replay_case(case):
-    _, probs = scenario((case["producer"], case["k"], case["use"], case["optimize"], case.get("seed", 0), None))
+    _, probs = scenario((case["producer"], case["k"], case["use"], case["optimize"], case.get("seed", 0), None, case.get("receiver_precomputed", False)))
     return [Problem(sig, case, t) for sig, t in probs]
 
 
@@ -210,10 +223,12 @@ def run(ctx):
         for use in USES:
             for opt in opts:
                 if use == "d-original":
-                    items.append((prog, "same-process", use, opt, ctx.seed, work))
+                    items.append((prog, "same-process", use, opt, ctx.seed, work, False))
                     continue
                 for k in ks:
-                    items.append((prog, k, use, opt, ctx.seed, work))
+                    items.append((prog, k, use, opt, ctx.seed, work, False))
+                    if use in ("alone", "local-d") and (tier == "thorough" or k in (0, 3)):
+                        items.append((prog, k, use, opt, ctx.seed, work, True))
     n = 0
     outcomes = Counter()
     try:
